@@ -91,7 +91,28 @@ def r1(ctx):
                   else f'image outside the letter table for {chr(img_bad[0])!r}'), key='encoder-total', witness={'unmapped': [chr(c) for c in missing[:10]]} if missing else None,
                  what='phredToFastqHeaderSafeQualities: translation table does not cover every phred character (no saturation)')
         return
-    ctx.emit('C04-R1', False, BASEDEMUX, f, 'encoder is neither a clamped table lookup nor a constant translation table', key='encoder-total', undecided=True)
+    # neither form: the encoder and the decoder are run on every phred character
+    import string
+    from ..consteval import module_scope, run_function, Unfoldable, Raised
+    try:
+        env = module_scope(ctx.ix, BASEDEMUX)
+        q = ''.join(chr(c) for c in range(33, 127))
+        enc = run_function(f, [q], env=env, budget=100000)
+        want = ''.join(string.ascii_letters[min(max(0, ord(c) - 33), 51)] for c in q)
+        dec = run_function(ctx.fn(BASEDEMUX, 'fastqHeaderSafeQualitiesToPhred'), [want], env=env, budget=100000)
+        wdec = ''.join(chr(min(ord(c) - 33, 51) + 33) for c in q)
+    except (Unfoldable, Raised, Exception) as e_:
+        ctx.emit('C04-R1', False, BASEDEMUX, f, f'encoder is neither a clamped table lookup nor a constant translation table, and outside the interpreted subset ({type(e_).__name__}: {str(e_)[:60]})', key='encoder-total', undecided=True)
+        return
+    bad = None
+    if enc != want:
+        k = next(i for i in range(len(q)) if i >= len(enc) or enc[i] != want[i]) if isinstance(enc, str) else 0
+        bad = {'phred character': q[k], 'encoded as': enc[k] if isinstance(enc, str) and k < len(enc) else None, 'expected': want[k]}
+    elif dec != wdec:
+        bad = {'decoded': dec, 'expected': wdec}
+    ctx.counters['interpreted_cases'] = ctx.counters.get('interpreted_cases', 0) + len(q)
+    ctx.emit('C04-R1', bad is None, BASEDEMUX, f, 'encoder and decoder interpreted on all 94 phred characters: letter table at min(max(0, ord - 33), 51), decoded back to the saturated character' if bad is None else
+             f'quality codec on all 94 phred characters: {bad}', key='encoder-total', witness=bad, what='phredToFastqHeaderSafeQualities is not the total, saturating letter code')
 
 
 @rule('C04', 'C04-R2', 'every tag the demultiplexer can write is defined (asFastq looks every key up in the tag table)')
